@@ -179,3 +179,41 @@ func C16FlOld() {
 	}
 	zz.Fail("no fatal error within the read bound")
 }
+
+// C12FlOldNoRelease: callers that rely on the documented auto-release (never calling
+// Release) and keep calling Read after the terminal result: no node is ever released twice
+// (pool model reports a double Put), delivered trees stay sound.
+func C12FlOldNoRelease() {
+	NL := zz.Param("NL", 3)
+	f := zzMakeLines(NL, 3)
+	name := "e"
+	var decl *FileDecl
+	if zz.NondetBool("headerFooter") {
+		decl = &FileDecl{Envelopes: []*EnvelopeDecl{
+			{Name: &name, ByHeaderFooter: &ByHeaderFooterDecl{Header: "^[^X]", Footer: "."},
+				Columns: []*ColumnDecl{{Name: "c1", StartPos: 1, Length: 3}}}}}
+	} else {
+		decl = zzRowsDecl(1+zz.NondetChoice("rows", 2), 3)
+	}
+	r := zzNewReader(&zzChunkReader{data: f.input, failAt: -1}, decl, 4096)
+	for i := 0; i < NL+4; i++ {
+		n, err := r.Read()
+		if err == nil {
+			zz.Cover("record")
+			zz.Assert(n.Parent == r.root && n.FirstChild != nil && n.FirstChild.Parent == n, "delivered envelope is attached and sound")
+			continue
+		}
+		zz.Cover("terminal")
+	}
+	// nodes obtained afterwards are pairwise distinct objects (a node released twice sits in
+	// the pool twice and is handed out to two owners)
+	var fresh []*idr.Node
+	for i := 0; i < 8; i++ {
+		fresh = append(fresh, idr.CreateNode(idr.ElementNode, "n"))
+	}
+	for i := range fresh {
+		for j := i + 1; j < len(fresh); j++ {
+			zz.Assert(fresh[i] != fresh[j], "two acquisitions never return the same node")
+		}
+	}
+}
